@@ -183,11 +183,29 @@ def ref_apply(ref, op, hbar=2.0):
 
 
 def reference(spec, hbar=2.0):
-    ref = RefState(spec["n"])
+    """reference state over all modes that ever exist; `ref.active` lists the modes alive at the end (ascending)"""
+    n_total = spec["n"] + sum(len(o["regs"]) for o in spec["ops"] if o["cls"] == "New")
+    ref = RefState(n_total)
+    alive = set(range(spec["n"]))
     for op in spec["ops"]:
+        if op["cls"] == "Del":
+            for m in op["regs"]:
+                ref.reset_mode(m)
+                alive.discard(m)
+            continue
+        if op["cls"] == "New":
+            alive |= set(op["regs"])
+            continue
         if not ref_apply(ref, op, hbar):
             return None
+    ref.active = sorted(alive)
     return ref
+
+
+def restrict_moments(m, modes):
+    a, N, M = m[:3]
+    ix = np.array(modes, dtype=int)
+    return a[ix], N[np.ix_(ix, ix)], M[np.ix_(ix, ix)]
 
 
 # ---------------------------------------------------------------- moments of SF state objects
@@ -288,12 +306,13 @@ def moment_dist(a, b):
 
 # ---------------------------------------------------------------- running programs
 
-def run_spec(sf, spec, backend, hbar=None, **backend_options):
+def run_spec(sf, spec, backend, hbar=None, op_cache=None, **backend_options):
     if hbar is not None:
         sf.hbar = hbar
-    prog, _ = progs.build(spec)
+    prog, _ = progs.build(spec, op_cache=op_cache)
+    modes = backend_options.pop("modes", None)
     eng = sf.Engine(backend, backend_options=backend_options)
-    res = eng.run(prog)
+    res = eng.run(prog) if modes is None else eng.run(prog, modes=list(modes))
     return res.state, eng
 
 
